@@ -32,3 +32,38 @@ var rxSnapOsvRepos = []string{"crates.io", "go", "npm", "nuget", "oss-fuzz", "pa
 
 // pkg/pep440 (*Version).Version: the canonical pre-release labels Gen/Versions listed (candidate inputs only).
 var rxSnapPepLabels = []string{"a", "b", "rc"}
+
+// Matchers (Gen/Matchers): the fact lists of Filter, the conditional constraints
+// of Query and the string values of Vulnerable as Gen/Matchers printed them.
+//
+//	filter        printed when the evaluated guards and (field, value) atoms are exactly the ones it lists
+//	queryIf       printed when the evaluated effect of configuration is queryIfCanon
+//	vulnLits      printed when the string values of Vulnerable, named constants resolved and same-file helpers
+//	              followed, are vulnCanon (nil: the values are printed as they are)
+type rxMatcherSnap struct {
+	filter       []string
+	queryIf      []string
+	queryIfCanon []string
+	vulnLits     []string
+	vulnCanon    []string
+}
+
+var rxSnapMatchers = map[string]rxMatcherSnap{
+	"alpine": {filter: []string{"Distribution==nil", "Distribution.DID=alpine", "Distribution.Name=Alpine Linux"}},
+	"aws":    {filter: []string{"Distribution==nil", "Distribution.Name=Amazon Linux AMI", "Distribution.Name=Amazon Linux", "Distribution.Name=Amazon Linux", "Distribution.DID=amzn"}},
+	"debian": {filter: []string{"Distribution==nil", "Distribution.DID=debian", "Distribution.Name=Debian GNU/Linux"}},
+	"ubuntu": {filter: []string{"Distribution==nil", "Distribution.DID=ubuntu", "Distribution.Name=Ubuntu"}},
+	"oracle": {filter: []string{"Distribution==nil", "Distribution.DID=ol", "Distribution.Name=Oracle Linux Server"}},
+	"photon": {filter: []string{"Distribution!=nil", "Distribution.DID=photon"}},
+	"suse":   {filter: []string{"Distribution==nil", "Distribution.DID=sles|opensuse|opensuse-leap", "Distribution.Name=SLES|openSUSE Leap"}},
+	"rhel": {filter: []string{"Repository!=nil", "Repository.Key=rhel-cpe-repository"},
+		queryIf: []string{"m.ignoreUnpatched:HasFixedInVersion"}, queryIfCanon: []string{"ignore_unpatched:+HasFixedInVersion"},
+		// the old text did not resolve the package constant repositoryKey nor follow isCPESubstringMatch
+		vulnLits: []string{"", "65535:0"}, vulnCanon: []string{"rhel-cpe-repository", ":*", "", "65535:0"}},
+	"rhcc":   {filter: []string{"Repository!=nil", "Repository.Name=Red Hat Container Catalog"}},
+	"python": {filter: []string{"Package.NormalizedVersion.Kind=pep440"}},
+	"java":   {filter: []string{"Repository!=nil", "Repository.Name=maven"}},
+	"ruby":   {filter: []string{"Repository!=nil", "Repository.Name=rubygems"}},
+	"gobin":  {filter: []string{"Repository!=nil", "Repository.URI=https://pkg.go.dev/"}},
+	"nodejs": {filter: []string{"Repository!=nil", "Repository.Name=npm"}},
+}
